@@ -40,6 +40,15 @@ def _init_exc():
 _init_exc()
 
 
+class AMethod(object):
+    """A modelled method of a seed object (Interp.method_models)."""
+    __slots__ = ("base", "attr")
+
+    def __init__(self, base, attr):
+        self.base = base
+        self.attr = attr
+
+
 class ASuper(object):
     __slots__ = ("obj", "start")
 
@@ -138,7 +147,8 @@ class Result(object):
 
 class Interp(object):
     def __init__(self, repo, max_depth=4, budget=400000, inject=None,
-                 watch=(), no_inline=(), extra_models=None, inline_filter=None):
+                 watch=(), no_inline=(), extra_models=None, inline_filter=None,
+                 method_models=None):
         self.repo = repo
         self.max_depth = max_depth
         self.budget = budget
@@ -149,6 +159,7 @@ class Interp(object):
         self.no_inline = set(no_inline)  # function names never inlined
         self.extra_models = extra_models or {}
         self.inline_filter = inline_filter
+        self.method_models = method_models or {}
         self.frames = []
         self.unknown_depth = 0
         self.res = None
@@ -1257,6 +1268,13 @@ class Interp(object):
         unknown = False
         for op, c in zip(n.ops, n.comparators):
             right = self.ev(c, st)
+            if isinstance(op, (ast.In, ast.NotIn)) and isinstance(right, AClass):
+                # membership in an Enum class: its class-level constants
+                vals = []
+                for b in right.node.body:
+                    if isinstance(b, ast.Assign) and isinstance(b.value, ast.Constant):
+                        vals.append(b.value.value)
+                right = tuple(vals) if vals else UNK
             if isinstance(op, (ast.In, ast.NotIn)) and (
                     right is None or isinstance(right, (int, float))):
                 self._diverged = self.do_raise("TypeError", st, n)
@@ -1311,6 +1329,8 @@ class Interp(object):
             h = st.heap.get(base.ident, {})
             if attr in h:
                 return h[attr]
+            if base.cnode is None and attr in self.method_models:
+                return AMethod(base, attr)
             if base.cnode is not None:
                 v = self.class_attr(base.mod, base.cnode, attr, st, base)
                 if v is not None:
@@ -1492,6 +1512,8 @@ class Interp(object):
             return self.call_func(f, args, kwargs, st, node)
         if isinstance(f, AClass):
             return self.instantiate(f, args, kwargs, st, node, starred)
+        if isinstance(f, AMethod):
+            return self.method_models[f.attr](self, f.base, args, kwargs, st, node)
         if isinstance(f, ABuiltin) and f.name == "super":
             return self.make_super(args, st)
         if isinstance(f, ABuiltin) and f.name.startswith("ffi:"):
